@@ -439,6 +439,62 @@ fn run_case(d: &mut Driver, r: &mut Report, c: &CaseCfg, g: &mut SplitMix, i: u6
     }
 }
 
+// ---------------------------------------------------------------------------------------------
+// set-like populations: a step makes as many children as the population has NOW
+// ---------------------------------------------------------------------------------------------
+
+/// child maker over `BTreeSet<u64>` populations: a child is a random value below `modulus` (so children collide and
+/// the collected set can be smaller than the old one); counts its applications and records the population size shown
+struct SetMaker { modulus: u64, calls: Arc<std::sync::atomic::AtomicUsize>, shown: Arc<Mutex<Vec<usize>>> }
+impl Composable for SetMaker {}
+impl<'a> Operator<&'a std::collections::BTreeSet<u64>> for SetMaker {
+    type Output = u64;
+    type Error = ProbeErr;
+    fn apply<R: Rng + ?Sized>(&self, pop: &'a std::collections::BTreeSet<u64>, rng: &mut R) -> Result<u64, ProbeErr> {
+        self.calls.fetch_add(1, Ordering::SeqCst);
+        self.shown.lock().unwrap().push(pop.len());
+        Ok(rng.next_u64() % self.modulus)
+    }
+}
+
+/// The property counts children by the population "it had": with a set-like population (children that compare equal
+/// collapse) the population shrinks, and the next step on the same `Generation` value must make as many children as
+/// the population has then - not as many as it had when the value was created.  Model-free.
+fn set_population_scenarios(r: &mut Report, seed: u64) {
+    use std::collections::BTreeSet;
+    for (k, (n0, modulus)) in [(10usize, 4u64), (40, 7), (3, 1), (64, 1000), (1, 1), (0, 5)].into_iter().enumerate() {
+        for mode in 0..3usize {
+            let calls = Arc::new(std::sync::atomic::AtomicUsize::new(0));
+            let shown = Arc::new(Mutex::new(Vec::new()));
+            let pop0: BTreeSet<u64> = (0..n0 as u64).map(|x| 1_000_000 + x).collect();
+            let mut gen = Generation::new(SetMaker { modulus, calls: calls.clone(), shown: shown.clone() }, pop0);
+            let mut why: Vec<String> = vec![];
+            for step in 0..4usize {
+                let before = gen.population().len();
+                calls.store(0, Ordering::SeqCst);
+                shown.lock().unwrap().clear();
+                let par = match mode { 0 => false, 1 => true, _ => step % 2 == 1 };
+                let res = std::panic::catch_unwind(std::panic::AssertUnwindSafe(|| if par { pools()[(seed as usize + k + step) % 6].1.install(|| gen.par_next()) } else { gen.serial_next() }));
+                let made = calls.load(Ordering::SeqCst);
+                match res {
+                    Err(_) => { why.push(format!("step {step}: panicked")); break; }
+                    Ok(Err(_)) => { why.push(format!("step {step}: failed although the child maker never fails")); break; }
+                    Ok(Ok(())) => {
+                        if made != before { why.push(format!("step {step} ({}): {made} applications of the child maker for a population of {before}", if par { "par" } else { "serial" })); }
+                        if shown.lock().unwrap().iter().any(|l| *l != before) { why.push(format!("step {step}: a child was made from a population of another size than the current one ({before})")); }
+                        if gen.population().len() > before || gen.population().iter().any(|x| *x >= modulus) { why.push(format!("step {step}: the new population is not made of this step's children")); }
+                    }
+                }
+            }
+            r.case(&format!("set population n={n0} modulus={modulus} mode={mode}"), n0 > 1);
+            r.hit("set-like population (BTreeSet) stepped four times");
+            if !why.is_empty() {
+                r.violate(json!({"case": format!("generation over a BTreeSet population of {n0} values, children = random values below {modulus}, mode {mode} (0 serial, 1 parallel, 2 alternating)"), "what": why}));
+            }
+        }
+    }
+}
+
 fn clip(s: &str) -> String { if s.len() > 400 { format!("{}…({} chars)", &s[..400], s.len()) } else { s.to_string() } }
 
 pub fn run(cfg: &Cfg) -> Report {
@@ -456,6 +512,7 @@ pub fn run(cfg: &Cfg) -> Report {
         let c = gen_case(&mut g, thorough, i, n_exh, &exh);
         run_case(d, r, &c, &mut g, i);
     });
+    if mutant().is_empty() { set_population_scenarios(&mut rep, seed); }
     if !mutant().is_empty() { rep.notes.push(format!("SELF-TEST: real Generation replaced by mutant `{}`", mutant())); }
     rep.exhaustive = true;
     rep.notes.push(format!("exhaustive scope: population sizes 0..=16 x every failing call position 0..n (and none) x (serial, rayon pools of 1,2,3,4,8,16 threads) x {reps} repeats = {n_exh} cases; seeded random: {n_rand} cases of 1-3 consecutive steps"));
